@@ -1,7 +1,8 @@
 (* C16 - Host health state is never lost, and thresholds are exact.  Only statements here; proofs by `exact`. *)
 From Coq Require Import List NArith Bool.
 From MV Require Import Lib.Interleave Gen.HealthOps Gen.HealthLoop Gen.HealthStoreOps Model.Health Model.HealthCheck
-  Model.HealthLoop Model.HealthStore Proofs.Health Proofs.HealthCheck Proofs.HealthLoop Proofs.HealthStore.
+  Model.HealthLoop Model.HealthStore Gen.HealthXferTokens Model.HealthTransfer
+  Proofs.Health Proofs.HealthCheck Proofs.HealthLoop Proofs.HealthStore Proofs.HealthTransfer.
 Import ListNotations.
 Open Scope N_scope.
 
@@ -190,3 +191,36 @@ Example c16_store_example :
   let ops := [ONew 7; ONew 7; ONew 3; OSet 0 1; ODrop 1; ORelease 7; ONew 7; OClear 3 1; OSet 2 2] in
   map (handle_word (hs_run hs_mode ops)) [0; 1; 2; 3]%nat = [Some 0%N; None; Some 2%N; Some 0%N].
 Proof. vm_compute. reflexivity. Qed.
+
+(* Fifth part: host replacement at the same address as an actor on the shared word (Model/HealthTransfer.v).
+   `xfer_mode` = what transferHostSetStates does with health flags, READ FROM cluster_manager.go.  Writers own
+   disjoint conditions (checker, outlier regulator, ...), each Set/Clear is atomic (c16_no_lost_update), any number of
+   host replacements run concurrently.  For EVERY interleaving in which all actors finish, every flag ends as its last
+   writer left it: the final word is the initial word with the writers' operations applied - no lost clear, no
+   resurrected flag.  Type-checks only while the replacement does not write health flags; a read-then-OR of the whole
+   word (or flag by flag) is refuted: the checker clears its flag between the read and the OR. *)
+Theorem c16_transfer_translator_ok : HealthXferTokens_translator_ok = true.
+Proof. exact (eq_refl true). Qed.
+
+Theorem c16_flags_survive_host_replacement : forall ts, forallb xinitial ts = true -> cross_disjoint (map xtodo ts) ->
+  forall sched w0, forallb xdone (fst (xrun xfer_mode sched ts w0)) = true ->
+  snd (xrun xfer_mode sched ts w0) = apply_all (concat (map xtodo ts)) w0.
+Proof. exact (xfer_ok_of_mode xfer_mode (eq_refl XferNone)). Qed.
+Print Assumptions c16_flags_survive_host_replacement.
+
+Theorem c16_transfer_read_then_set_refuted : ~ xfer_statement XferReadThenSet.
+Proof. exact xfer_read_then_set_refuted. Qed.
+Print Assumptions c16_transfer_read_then_set_refuted.
+
+Theorem c16_transfer_per_flag_refuted : ~ xfer_statement (XferPerFlag [1; 2]).
+Proof. exact xfer_per_flag_refuted. Qed.
+Print Assumptions c16_transfer_per_flag_refuted.
+
+Example c16_transfer_example :
+  let ts := [XWriter [HClear 1; HSet 1]; XWriter [HSet 2]; XTransfer XStart; XTransfer XStart] in
+  forallb xinitial ts = true /\ cross_disjoint (map xtodo ts) /\
+  xrun xfer_mode [2; 0; 1; 3; 0; 2; 3]%nat ts 1 = ([XWriter []; XWriter []; XTransfer XDone; XTransfer XDone], 3).
+Proof.
+  cbn zeta. split; [reflexivity|split; [|vm_compute; reflexivity]].
+  repeat constructor; intros a b Ha Hb; cbn in Ha, Hb; intuition (subst; reflexivity).
+Qed.
